@@ -97,9 +97,12 @@ KeyGen ==
   /\ Ev.ev = "KeyGen"
   /\ LET e == Ev
          b == StateOf(e.st)
-         isDrift == b # Setup.bds \/ e.idx # 0
+         \* tall trees (field nomodel): the traversal model is not evaluated (a jump over 2^16 indices is
+         \* 2^16 Advance steps), the object is off-model from the start and only its observables are checked
+         noModel == "nomodel" \in DOMAIN e /\ e.nomodel
+         isDrift == ~noModel /\ (b # ClosedInit \/ e.idx # 0)
      IN /\ keys' = (e.k :> [idx |-> e.idx, bds |-> b, pkid |-> e.pkid, maxEmitted |-> -1, fam |-> e.fam,
-                            onModel |-> ~isDrift]) @@ keys
+                            onModel |-> ~isDrift /\ ~noModel]) @@ keys
         /\ Note(isDrift)
         /\ Record(<<>>
              \o When(~e.rootok, V("C01", "root in the public key is not the root of the full Merkle tree"))
